@@ -17,9 +17,12 @@
 (*          "both"  rows carry both (tempo_traces_attrs_gin)               *)
 (*   wrule  the WRITER's date rule for the table: "utc" = UTC day of the   *)
 (*          sample (builder.go truncates the UTC time to 24 h for series;  *)
-(*          profile tables: toDate() in the materialized views), "local" = *)
-(*          day in the writer process's zone (tempo tags: ch-go ToDate of  *)
-(*          time.Unix(sec, 0) adds the zone offset)                        *)
+(*          profile tables: toDate() in the materialized views; tempo tags *)
+(*          since the writer passes time.Unix(sec, 0).UTC()), "local" =    *)
+(*          day in the writer process's zone (ch-go ToDate of a local      *)
+(*          time.Unix(sec, 0) adds the zone offset: tempo tags before that *)
+(*          repair).  The driver observes which rule the real writer       *)
+(*          follows; it is not assumed.                                    *)
 (*   agg15  the table stores the start of the sample's 15 s bucket         *)
 (*   tlo/thi timestamp bounds: operator, and how the literal is derived    *)
 (*          from the request end: as is, truncated to seconds, to 15 s, to *)
